@@ -16,6 +16,7 @@ import (
 	"bufio"
 	"context"
 	"encoding/json"
+	"errors"
 	"fmt"
 	"io"
 	"log"
@@ -693,6 +694,68 @@ func c08CheckIntervals(o *vOut, logp string, skip int, rep map[string]any) {
 	}
 }
 
+// Several contenders find ONE plainly stale lock file at the same (real) instant: whoever loses
+// the race to remove it waits its turn like everybody else — nobody is refused, everybody holds
+// the lock in the end. (Whether two of them hold it at once is the documented non-guarantee,
+// finding D27, and not judged here.)
+func c08StaleRace(t *testing.T, o *vOut, root string) {
+	rounds := 300
+	if vThorough() {
+		rounds = 3000
+	}
+	dir, _ := os.MkdirTemp(root, "race-")
+	defer os.RemoveAll(dir)
+	st := &FileStorage{Path: dir}
+	// (a context that has ended already: whoever would have to WAIT for the new holder comes back
+	// at once with the context's error, so a round takes no time)
+	cctx, cancel := context.WithCancel(context.Background())
+	cancel()
+	for round := 0; round < rounds; round++ {
+		name := c08Names[round%len(c08Names)]
+		lf := st.lockFilename(name)
+		os.MkdirAll(filepath.Dir(lf), 0o700)
+		old := time.Now().Add(-time.Hour)
+		mb, _ := json.Marshal(lockMeta{Created: old, Updated: old})
+		os.WriteFile(lf, mb, 0o600)
+		const n = 12
+		var wg sync.WaitGroup
+		errs := make([]error, n)
+		gate := make(chan struct{})
+		for i := 0; i < n; i++ {
+			wg.Add(1)
+			go func() {
+				defer wg.Done()
+				<-gate
+				errs[i] = st.Lock(cctx, name)
+			}()
+		}
+		close(gate)
+		wg.Wait()
+		winners := 0
+		for i, e := range errs {
+			switch {
+			case e == nil:
+				winners++
+			case errors.Is(e, context.Canceled):
+			default:
+				o.Mon("C08 stale-race contender-refused", map[string]any{"round": round, "contender": i, "error": e.Error()})
+				o.Stat("stale_race_rounds", round+1)
+				return
+			}
+		}
+		if winners == 0 {
+			o.Mon("C08 stale-race nobody-took-over", map[string]any{"round": round})
+			o.Stat("stale_race_rounds", round+1)
+			return
+		}
+		for i := 0; i < winners; i++ {
+			st.Unlock(context.Background(), name)
+		}
+		os.Remove(lf)
+	}
+	o.Stat("stale_race_rounds", rounds)
+}
+
 func TestVerifC08(t *testing.T) {
 	o := vOpen(t, "C08")
 	defer o.Close()
@@ -706,6 +769,7 @@ func TestVerifC08(t *testing.T) {
 	defer os.RemoveAll(root)
 	t0 := time.Now()
 	c08Rig1(t, o, rng, root)
+	c08StaleRace(t, o, root)
 	t1 := time.Now()
 	if vThorough() {
 		c08Rig2(t, o, rng, root)
